@@ -211,7 +211,24 @@ func (m *mstate) runNode(id int) (string, string) {
 	n := m.sc.Nodes[id]
 	switch n.Kind {
 	case "flow":
-		return m.runFlow(n)
+		// a flow is a node with retry settings of its own (reachable through its
+		// exported embedded BaseNode): a failed pass over its path is an attempt
+		cfg := n.configRun(m.runIdx)
+		fe := m.run.FailEnd
+		a, e := "", ""
+		for k := 1; k <= max(cfg.Retries, 1); k++ {
+			if k > 1 {
+				m.run.FailEnd = fe
+				if m.cancelled || (cfg.WaitMs > 0 && !m.retryWait(cfg.WaitMs)) {
+					return "", "ctx"
+				}
+			}
+			a, e = m.runFlow(n)
+			if e == "" || e == "ctx" || e == "toolong" {
+				break
+			}
+		}
+		return a, e
 	case "batch":
 		return m.runBatch(n)
 	}
